@@ -85,7 +85,7 @@ STMTS = [
     ("walrus.if", "if (w := z) is not None:\n    r19 = w", ["z"], []),
     ("class.body", "class C:\n    m = z\n    u = m\nr19 = C.u", ["z"], ["m", "u"]),
     ("class.base", "class C(B19):\n    pass\nr19 = C.__mro__[1].__name__", ["B19"], []),
-    ("class.method-vararg", "class C:\n    def m(self, *a):\n        return (a, z)\nr19 = C().m(1)", ["z"], ["self", "a"]),
+    ("class.method-vararg", "class C:\n    def m(self, *a):\n        return (a, z)\nr19 = C().m(1)", ["z"], ["a", "self"]),
     ("match.sequence", "match P3:\n    case [(p, *q)]:\n        r19 = (p, q)", ["P3"], []),
     ("match.mapping", "match {'k': z}:\n    case {'k': v, **rest}:\n        r19 = (v, rest)", ["z"], []),
     ("match.as", "match z:\n    case int() as n:\n        r19 = n", ["z"], []),
